@@ -90,6 +90,28 @@ Proof.
   intros H. apply andb_true_iff in H. destruct H as [Ha Hr]. rewrite Ha. now apply IH.
 Qed.
 
+(* valid strings pass through encoding/json unchanged *)
+Lemma coerce_valid_id_len n : forall s, (length s <= n)%nat -> utf8_valid s = true -> coerce_utf8 s = s.
+Proof.
+  induction n as [|n IH]; intros s Hl Hv.
+  - destruct s; [reflexivity|cbn [length] in Hl; lia].
+  - destruct s as [|a r]; [reflexivity|]. cbn [length] in Hl.
+    cbn [utf8_valid coerce_utf8] in *.
+    destruct (a <? 128). { f_equal. apply IH; [lia|exact Hv]. }
+    destruct (inr 194 223 a).
+    { destruct r as [|b r']; [discriminate|]. cbn [length] in Hl.
+      apply andb_true_iff in Hv. destruct Hv as [Hb Hv]. rewrite Hb. do 2 f_equal. apply IH; [lia|exact Hv]. }
+    destruct (inr 224 239 a).
+    { destruct r as [|b [|c r']]; try discriminate. cbn [length] in Hl.
+      apply andb_true_iff in Hv. destruct Hv as [Hbc Hv]. rewrite Hbc. do 3 f_equal. apply IH; [lia|exact Hv]. }
+    destruct (inr 240 244 a); [|discriminate].
+    destruct r as [|b [|c [|d r']]]; try discriminate. cbn [length] in Hl.
+    apply andb_true_iff in Hv. destruct Hv as [Hbcd Hv]. rewrite Hbcd. do 4 f_equal. apply IH; [lia|exact Hv].
+Qed.
+
+Lemma coerce_valid_id s : utf8_valid s = true -> coerce_utf8 s = s.
+Proof. apply (coerce_valid_id_len (length s)). lia. Qed.
+
 (* ------------------------------------------------------------------------------------ *)
 (* base64 model                                                                           *)
 
@@ -209,6 +231,8 @@ Section Store.
   Notation ideal_load := (ideal_load b64enc marshal).
   Notation ideal_step := (ideal_step b64enc marshal).
   Notation ideal_run := (ideal_run b64enc marshal).
+  Notation tstep := (tstep b64enc marshal).
+  Notation foreign_visible := (foreign_visible b64enc marshal).
 
   Lemma session_ok_parts s : session_ok s = true ->
     bytes_ok (s_key s) = true /\ bytes_ok (s_hash s) = true /\
@@ -253,26 +277,16 @@ Section Store.
 
   (* ---------------- the cache is transparent ---------------- *)
 
-  (* Loader invariant, relative to the latest modification time handed out so far ([now]):
-     the loader cached at a time that has been handed out, and if the file still carries that
-     time, the cached session is what the file parses to. *)
-  Definition inv (now : N) (fs : fsys) (l : loader) : Prop :=
+  (* Loader invariant, relative to [ca] = the time the reference says the living loader cached at:
+     a loader with a cached session cached at exactly that time, and if the file still carries
+     that time, the cached session is what the file parses to. *)
+  Definition inv (ca : option N) (fs : fsys) (l : loader) : Prop :=
     forall c, l_cached l = Some c ->
-      l_last l <= now /\
+      ca = Some (l_last l) /\
       forall content t, files fs (l_path l) = Some (content, t) -> t = l_last l -> parse content = Ok c.
 
-  Definition time_le (now : N) (fs : fsys) (p : bytes) : Prop :=
-    forall content t, files fs p = Some (content, t) -> t <= now.
-
-  Definition res_of_parse (r : outcome session) : load_res :=
-    match r with Ok s => LOk s | Err => LErr | Panic => LPanic end.
-
-  (* Load without a cache *)
-  Definition load_direct (fs : fsys) (p : bytes) : load_res :=
-    match files fs p with
-    | None => match dirs fs (go_dir p) with DFile => LErr | _ => LNotFound end
-    | Some (content, _) => res_of_parse (parse content)
-    end.
+  Definition mtime_is (fs : fsys) (p : bytes) (mt : N) : Prop :=
+    forall content t, files fs p = Some (content, t) -> t = mt.
 
   Lemma load_path fs l : l_path (snd (load fs l)) = l_path l.
   Proof.
@@ -290,40 +304,27 @@ Section Store.
     mt = l_last l -> load fs l = (LOk s, l).
   Proof. intros Hf Hc Hm. unfold Session.load. rewrite Hf, Hc, Hm, N.eqb_refl. reflexivity. Qed.
 
-  Lemma load_transparent now fs l : inv now fs l -> time_le now fs (l_path l) ->
-    fst (load fs l) = load_direct fs (l_path l) /\ inv now fs (snd (load fs l)).
+  (* Load on an existing file, for a loader whose cache (if it is hit) agrees with the file *)
+  Lemma load_spec fs l content mt :
+    files fs (l_path l) = Some (content, mt) ->
+    (forall c, l_cached l = Some c -> mt = l_last l -> parse content = Ok c) ->
+    match parse content with
+    | Ok s => fst (load fs l) = LOk s /\ l_cached (snd (load fs l)) = Some s /\
+              l_last (snd (load fs l)) = mt /\ l_path (snd (load fs l)) = l_path l
+    | Err => load fs l = (LErr, l)
+    | Panic => load fs l = (LPanic, l)
+    end.
   Proof.
-    intros Hinv Htl. unfold Session.load, load_direct.
-    destruct (files fs (l_path l)) as [[content mt]|] eqn:Hf; [|split; [reflexivity|exact Hinv]].
-    assert (Hnew : forall s, parse content = Ok s -> inv now fs (mkLoader (l_path l) mt (Some s))).
-    { intros s Hs c Hc. cbn [l_cached l_path l_last] in *. injection Hc as <-. split.
-      - exact (Htl content mt Hf).
-      - intros content' t' Hf' _. rewrite Hf in Hf'. now injection Hf' as <- <-. }
-    destruct (l_cached l) as [c|] eqn:Hc.
+    intros Hf Hc. unfold Session.load. rewrite Hf.
+    destruct (l_cached l) as [c|] eqn:E.
     - destruct (N.eqb_spec mt (l_last l)) as [He|Hn].
-      + destruct (Hinv c Hc) as [_ Hp]. rewrite (Hp content mt Hf He).
-        cbn [fst snd res_of_parse]. split; [reflexivity|exact Hinv].
-      + destruct (parse content) as [s| |] eqn:Hp; cbn [fst snd res_of_parse]; split; auto.
-    - destruct (parse content) as [s| |] eqn:Hp; cbn [fst snd res_of_parse]; split; auto.
+      + rewrite (Hc c eq_refl He). cbn [fst snd]. auto.
+      + destruct (parse content); cbn [fst snd l_cached l_last l_path]; auto.
+    - destruct (parse content); cbn [fst snd l_cached l_last l_path]; auto.
   Qed.
 
-  Lemma inv_fresh now fs p : inv now fs (fresh p).
+  Lemma inv_fresh ca fs p : inv ca fs (fresh p).
   Proof. intros c Hc. discriminate. Qed.
-
-  Lemma inv_mono now now' fs l : now <= now' -> inv now fs l -> inv now' fs l.
-  Proof. intros Hle Hi c Hc. destruct (Hi c Hc) as [H1 H2]. split; [lia|exact H2]. Qed.
-
-  Lemma time_le_mono now now' fs p : now <= now' -> time_le now fs p -> time_le now' fs p.
-  Proof. intros Hle Ht content t Hf. specialize (Ht content t Hf). lia. Qed.
-
-  (* a change of the file that carries a time later than [now] cannot be mistaken for the cached state *)
-  Lemma inv_newer_write now fs l v t : inv now fs l -> now < t ->
-    (forall content t', v = Some (content, t') -> t' = t) ->
-    inv (N.max now t) (fs_set fs (l_path l) v) l.
-  Proof.
-    intros Hi Hlt Hv c Hc. destruct (Hi c Hc) as [H1 _]. split; [lia|].
-    intros content t' Hf Ht'. rewrite files_set_same in Hf. apply Hv in Hf. lia.
-  Qed.
 
   (* ---------------- simulation with the reference store ---------------- *)
 
@@ -334,53 +335,54 @@ Section Store.
                    exists t, files fs p = Some (firstn n (render s), t)
     end.
 
-  Definition sim (p : bytes) (now : N) (st : istate) (fs : fsys) (l : loader) : Prop :=
-    l_path l = p /\ inv now fs l /\ time_le now fs p /\ dirs fs (go_dir p) = DDir /\ file_is fs p st.
+  Definition sim (p : bytes) (st : istate) (mt : N) (ca : option N) (fs : fsys) (l : loader) : Prop :=
+    l_path l = p /\ inv ca fs l /\ mtime_is fs p mt /\ dirs fs (go_dir p) = DDir /\ file_is fs p st.
 
-  Lemma sim_intro p now st fs l : l_path l = p -> inv now fs l -> time_le now fs p ->
-    dirs fs (go_dir p) = DDir -> file_is fs p st -> sim p now st fs l.
+  Lemma sim_intro p st mt ca fs l : l_path l = p -> inv ca fs l -> mtime_is fs p mt ->
+    dirs fs (go_dir p) = DDir -> file_is fs p st -> sim p st mt ca fs l.
   Proof. intros. unfold sim. tauto. Qed.
 
   Lemma file_is_intro fs p s n t : session_ok s = true -> (n <= length (render s))%nat ->
     files fs p = Some (firstn n (render s), t) -> file_is fs p (IFile s n).
   Proof. intros. cbn [file_is]. eauto. Qed.
 
-  Lemma load_direct_ideal p st fs : dirs fs (go_dir p) = DDir -> file_is fs p st ->
-    load_direct fs p = ideal_load st.
+  Lemma mtime_is_set fs p c t : mtime_is (fs_set fs p (Some (c, t))) p t.
+  Proof. intros content t' Hf. rewrite files_set_same in Hf. now injection Hf as _ <-. Qed.
+
+  Definition cached_after_load (st : istate) (mt : N) (ca : option N) : option N :=
+    match ideal_load st with LOk _ => Some mt | _ => ca end.
+
+  Lemma sim_load p st mt ca fs l : sim p st mt ca fs l ->
+    fst (load fs l) = ideal_load st /\ sim p st mt (cached_after_load st mt ca) fs (snd (load fs l)).
   Proof.
-    intros Hd Hf. unfold load_direct, Session.ideal_load. destruct st as [|s n]; cbn [file_is] in Hf.
-    - now rewrite Hf, Hd.
-    - destruct Hf as (Hs & Hn & t & Hf). rewrite Hf, parse_file by assumption.
-      destruct (n <? length (render s))%nat; reflexivity.
+    intros (Hp & Hi & Hm & Hd & Hf). subst p. unfold cached_after_load.
+    destruct st as [|s n]; cbn [file_is] in Hf.
+    - unfold Session.load. rewrite Hf, Hd. cbn [fst snd Session.ideal_load].
+      split; [reflexivity|]. apply sim_intro; auto.
+    - destruct Hf as (Hs & Hn & t & Hf). assert (t = mt) by apply (Hm _ _ Hf). subst t.
+      pose proof (load_spec fs l (firstn n (render s)) mt Hf) as H.
+      assert (Hc : forall c, l_cached l = Some c -> mt = l_last l -> parse (firstn n (render s)) = Ok c).
+      { intros c Hc He. destruct (Hi c Hc) as [_ H2]. now apply (H2 _ mt). }
+      specialize (H Hc). rewrite parse_file in H by assumption.
+      assert (Hfi : file_is fs (l_path l) (IFile s n)) by (apply (file_is_intro _ _ _ _ mt); auto).
+      unfold Session.ideal_load. destruct (n <? length (render s))%nat eqn:E.
+      + rewrite H. cbn [fst snd]. split; [reflexivity|]. apply sim_intro; auto.
+      + destruct H as (H1 & H2 & H3 & H4). split; [exact H1|].
+        apply sim_intro; auto; try (rewrite H4; assumption).
+        intros c Hc'. rewrite H2 in Hc'. injection Hc' as <-. split; [now rewrite H3|].
+        intros content t Hf' _. rewrite H4, Hf in Hf'. injection Hf' as <- <-.
+        rewrite parse_file, E by assumption. reflexivity.
   Qed.
 
-  Lemma sim_load p now st fs l : sim p now st fs l ->
-    fst (load fs l) = ideal_load st /\ sim p now st fs (snd (load fs l)).
-  Proof.
-    intros (Hp & Hi & Ht & Hd & Hf). rewrite <- Hp in Ht.
-    destruct (load_transparent now fs l Hi Ht) as [H1 H2]. rewrite Hp in Ht.
-    split.
-    - rewrite H1, Hp. now apply load_direct_ideal.
-    - apply sim_intro; auto. now rewrite load_path.
-  Qed.
-
-  Lemma sim_fresh p now st fs l : sim p now st fs l -> sim p now st fs (fresh p).
+  Lemma sim_fresh p st mt ca ca' fs l : sim p st mt ca fs l -> sim p st mt ca' fs (fresh p).
   Proof. intros (Hp & Hi & Ht & Hd & Hf). apply sim_intro; auto using inv_fresh. Qed.
 
-  Lemma sim_mono p now now' st fs l : now <= now' -> sim p now st fs l -> sim p now' st fs l.
-  Proof.
-    intros Hle (Hp & Hi & Ht & Hd & Hf). apply sim_intro; eauto using inv_mono, time_le_mono.
-  Qed.
-
-  Lemma time_le_set now fs p c t : time_le (N.max now t) (fs_set fs p (Some (c, t))) p.
-  Proof. intros content t' Hf. rewrite files_set_same in Hf. injection Hf as <- <-. lia. Qed.
-
-  Lemma store_ok p now fs l s t : l_path l = p -> dirs fs (go_dir p) = DDir -> session_ok s = true ->
+  Lemma store_ok p ca fs l s t : l_path l = p -> dirs fs (go_dir p) = DDir -> session_ok s = true ->
     exists l', store fs l s t = (Ok tt, fs_set fs p (Some (render s, t)), l') /\
-               sim p (N.max now t) (IFile s (length (render s))) (fs_set fs p (Some (render s, t))) l'.
+               sim p (IFile s (length (render s))) t ca (fs_set fs p (Some (render s, t))) l'.
   Proof.
     intros Hp Hd Hs. unfold Session.store. rewrite Hp, Hd. eexists. split; [reflexivity|].
-    apply sim_intro; auto using time_le_set.
+    apply sim_intro; auto using mtime_is_set.
     - intros c Hc. discriminate.
     - apply (file_is_intro _ _ _ _ t); auto. now rewrite files_set_same, firstn_all.
   Qed.
@@ -392,63 +394,80 @@ Section Store.
     destruct (load fs (fresh (n :: p))); reflexivity.
   Qed.
 
-  Lemma sim_step p now st fs l o : p <> [] -> sim p now st fs l -> proper o = true ->
-    foreign_ok now o = true ->
+  (* a change of the file by another writer that carries a time other than the cached one *)
+  Lemma inv_foreign_write ca fs l v t : inv ca fs l ->
+    match ca with Some c => negb (t =? c) | None => true end = true ->
+    (forall content t', v = Some (content, t') -> t' = t) ->
+    inv ca (fs_set fs (l_path l) v) l.
+  Proof.
+    intros Hi Hv Hvt c Hc. destruct (Hi c Hc) as [H1 _]. split; [exact H1|].
+    intros content t' Hf Ht'. rewrite files_set_same in Hf. apply Hvt in Hf. subst t'.
+    rewrite H1 in Hv. rewrite Ht', N.eqb_refl in Hv. discriminate.
+  Qed.
+
+  Lemma tstep_st ts o : ts_st (tstep ts o) = fst (ideal_step (ts_st ts) o).
+  Proof. destruct o; reflexivity. Qed.
+
+  Lemma sim_step p st mt ca fs l o : p <> [] -> sim p st mt ca fs l -> proper o = true ->
+    visible_ok (mkT st mt ca) o = true ->
     exists fs' l',
       step fs l o = (fs', l', snd (ideal_step st o)) /\
-      sim p (next_now now o) (fst (ideal_step st o)) fs' l'.
+      sim p (ts_st (tstep (mkT st mt ca) o)) (ts_mtime (tstep (mkT st mt ca) o))
+            (ts_cached_at (tstep (mkT st mt ca) o)) fs' l'.
   Proof.
-    intros Hne Hsim Hpr Hfo. pose proof Hsim as (Hp & Hi & Ht & Hd & Hf).
-    destruct o as [s t| | |k t|c t|k t|s t|host|host t]; cbn [proper] in Hpr;
-      unfold next_now; cbn [op_time].
+    intros Hne Hsim Hpr Hvis. pose proof Hsim as (Hp & Hi & Hm & Hd & Hf).
+    destruct o as [s t| | |k t|c t|k t|s t| |host|host t]; cbn [proper] in Hpr;
+      cbn [Session.tstep ts_st ts_mtime ts_cached_at].
     - (* Store *)
-      destruct (store_ok p now fs l s t Hp Hd Hpr) as (l' & Hst & Hs').
+      destruct (store_ok p None fs l s t Hp Hd Hpr) as (l' & Hst & Hs').
       cbn [Session.step Session.ideal_step fst snd]. rewrite Hst. eauto.
     - (* Load *)
-      destruct (sim_load p now st fs l Hsim) as [H1 H2].
+      destruct (sim_load p st mt ca fs l Hsim) as [H1 H2].
       cbn [Session.step Session.ideal_step fst snd].
       destruct (load fs l) as [r l'] eqn:E. cbn [fst snd] in *. subst r. eauto.
     - (* Fresh *)
       cbn [Session.step Session.ideal_step fst snd]. rewrite Hp. eauto using sim_fresh.
     - (* Crash: the process is gone, new loader *)
       cbn [Session.step Session.ideal_step fst snd]. rewrite Hp. do 2 eexists. split; [reflexivity|].
-      unfold crash. destruct st as [|s n]; cbn [file_is] in Hf.
-      + rewrite Hf. apply sim_intro; auto using inv_fresh. apply (time_le_mono now); [lia|exact Ht].
+      unfold crash. destruct st as [|s n]; cbn [file_is file_time_after] in *.
+      + rewrite Hf. apply sim_intro; auto using inv_fresh.
       + destruct Hf as (Hs & Hn & t0 & Hf). rewrite Hf.
-        apply sim_intro; auto using inv_fresh, time_le_set.
+        apply sim_intro; auto using inv_fresh, mtime_is_set.
         apply (file_is_intro _ _ _ _ t); auto; [lia|]. now rewrite files_set_same, firstn_firstn.
     - discriminate.
     - (* Tear by another writer: this loader lives on *)
-      unfold foreign_ok in Hfo. cbn [foreign_op op_time] in Hfo. apply N.ltb_lt in Hfo.
+      cbn [visible_ok ts_cached_at] in Hvis.
       cbn [Session.step Session.ideal_step fst snd]. rewrite Hp. do 2 eexists. split; [reflexivity|].
-      unfold crash. destruct st as [|s n]; cbn [file_is] in Hf.
-      + rewrite Hf. apply (sim_mono p now); [lia|exact Hsim].
+      unfold crash. destruct st as [|s n]; cbn [file_is file_time_after] in *.
+      + rewrite Hf. exact Hsim.
       + destruct Hf as (Hs & Hn & t0 & Hf). rewrite Hf.
-        apply sim_intro; auto using time_le_set.
-        { rewrite <- Hp. apply inv_newer_write; auto. intros content t' H. now injection H. }
+        apply sim_intro; auto using mtime_is_set.
+        { rewrite <- Hp. apply (inv_foreign_write ca fs l _ t); auto. intros content t' H. now injection H. }
         apply (file_is_intro _ _ _ _ t); auto; [lia|]. now rewrite files_set_same, firstn_firstn.
     - (* complete store by another loader: this loader lives on *)
-      unfold foreign_ok in Hfo. cbn [foreign_op op_time] in Hfo. apply N.ltb_lt in Hfo.
+      cbn [visible_ok ts_cached_at] in Hvis.
       cbn [Session.step Session.ideal_step fst snd].
-      destruct (store_ok p now fs (fresh (l_path l)) s t) as (l' & Hst & Hs'); auto.
+      destruct (store_ok p ca fs (fresh (l_path l)) s t) as (l' & Hst & Hs'); auto.
       rewrite Hst. do 2 eexists. split; [reflexivity|].
       destruct Hs' as (_ & _ & Ht' & Hd' & Hf').
       apply sim_intro; auto.
-      rewrite <- Hp. apply inv_newer_write; auto. intros content t' H. now injection H.
+      rewrite <- Hp. apply (inv_foreign_write ca fs l _ t); auto. intros content t' H. now injection H.
+    - (* Scribble: the caller's copies are its own *)
+      cbn [Session.step Session.ideal_step fst snd]. eauto.
     - (* Client *)
       cbn [Session.step Session.ideal_step fst snd]. rewrite Hp, client_path_nonempty by exact Hne.
-      cbn [fst]. destruct (sim_load p now st fs (fresh p) (sim_fresh p now st fs l Hsim)) as [H1 _].
+      cbn [fst]. destruct (sim_load p st mt None fs (fresh p) (sim_fresh p st mt ca None fs l Hsim)) as [H1 _].
       rewrite H1. eauto.
     - (* ClientSave *)
       cbn [Session.step Session.ideal_step]. rewrite Hp, client_path_nonempty by exact Hne.
-      destruct (sim_load p now st fs (fresh p) (sim_fresh p now st fs l Hsim)) as [H1 H2].
+      destruct (sim_load p st mt None fs (fresh p) (sim_fresh p st mt ca None fs l Hsim)) as [H1 H2].
       rewrite H1. destruct H2 as (Hp2 & _).
       assert (Hsave : forall s, session_ok s = true ->
         exists fs' l', (let '(sr, fs', _) := store fs (snd (load fs (fresh p))) s t in
                         (fs', fresh p, ObsClientSave (Ok (client_of s)) sr))
                        = (fs', l', ObsClientSave (Ok (client_of s)) (Ok tt))
-                       /\ sim p (N.max now t) (IFile s (length (render s))) fs' l').
-      { intros s Hs. destruct (store_ok p now fs _ s t Hp2 Hd Hs) as (l' & Hst & Hs').
+                       /\ sim p (IFile s (length (render s))) t None fs' l').
+      { intros s Hs. destruct (store_ok p None fs _ s t Hp2 Hd Hs) as (l' & Hst & Hs').
         rewrite Hst. do 2 eexists. split; [reflexivity|]. eapply sim_fresh; eauto. }
       destruct (ideal_load st) as [s| | |] eqn:Hl; cbn [client_decide fst snd].
       + assert (Hs : session_ok s = true).
@@ -460,49 +479,123 @@ Section Store.
       + set (s := session_of_client (client_new host)).
         assert (Hs : session_ok s = true).
         { unfold s, session_of_client, client_new, session_ok. cbn. exact Hpr. }
-        destruct (store_ok p now fs _ s t Hp2 Hd Hs) as (l' & Hst & Hs').
+        destruct (store_ok p None fs _ s t Hp2 Hd Hs) as (l' & Hst & Hs').
         fold s. rewrite Hst. do 2 eexists. split; [reflexivity|]. eapply sim_fresh; eauto.
-      + do 2 eexists. split; [reflexivity|]. apply (sim_mono p now); [lia|]. eapply sim_fresh; eauto.
-      + do 2 eexists. split; [reflexivity|]. apply (sim_mono p now); [lia|]. eapply sim_fresh; eauto.
+      + do 2 eexists. split; [reflexivity|]. eapply sim_fresh; eauto.
+      + do 2 eexists. split; [reflexivity|]. eapply sim_fresh; eauto.
   Qed.
 
-  Theorem run_refines p ops : forall now st fs l, p <> [] -> sim p now st fs l ->
-    forallb proper ops = true -> foreign_newer now ops = true -> run fs l ops = ideal_run st ops.
+  (* the code's exact condition: every change by another writer carries a time different from the
+     one the living loader cached at *)
+  Theorem run_refines_exact p ops : forall ts fs l, p <> [] ->
+    sim p (ts_st ts) (ts_mtime ts) (ts_cached_at ts) fs l ->
+    forallb proper ops = true -> foreign_visible ts ops = true ->
+    run fs l ops = ideal_run (ts_st ts) ops.
   Proof.
-    induction ops as [|o r IH]; intros now st fs l Hne Hsim Hpr Hfn; [reflexivity|].
+    induction ops as [|o r IH]; intros ts fs l Hne Hsim Hpr Hfv; [reflexivity|].
     cbn [forallb] in Hpr. apply andb_true_iff in Hpr. destruct Hpr as [Ho Hr].
+    cbn [Session.foreign_visible] in Hfv. apply andb_true_iff in Hfv. destruct Hfv as [Hv Hfr].
+    destruct ts as [st mt ca]. cbn [ts_st ts_mtime ts_cached_at] in Hsim.
+    destruct (sim_step p st mt ca fs l o Hne Hsim Ho Hv) as (fs' & l' & Hst & Hs').
+    cbn [Session.run Session.ideal_run ts_st]. rewrite Hst.
+    rewrite (IH (tstep (mkT st mt ca) o) fs' l' Hne Hs' Hr Hfr). rewrite tstep_st. cbn [ts_st].
+    destruct (ideal_step st o) as [st' ob]. reflexivity.
+  Qed.
+
+  (* sufficient and easier to read: every change by another writer is strictly later than
+     everything before it *)
+  Definition ts_bound (now : N) (ts : tstate) : Prop :=
+    ts_mtime ts <= now /\ forall c, ts_cached_at ts = Some c -> c <= now.
+
+  Lemma bound_step now ts o : ts_bound now ts -> ts_bound (next_now now o) (tstep ts o).
+  Proof.
+    intros [Hm Hc]. destruct ts as [st mt ca]. cbn [ts_mtime ts_cached_at] in *.
+    assert (Hca : forall now', now <= now' -> forall c, ca = Some c -> c <= now').
+    { intros now' Hle c H. specialize (Hc c H). lia. }
+    assert (Hno : forall now' c, @None N = Some c -> c <= now') by (intros; discriminate).
+    unfold ts_bound, next_now.
+    destruct o as [s t| | |k t|c t|k t|s t| |host|host t];
+      cbn [op_time Session.tstep ts_st ts_mtime ts_cached_at].
+    - split; [lia|apply Hno].
+    - split; [lia|]. destruct (ideal_load st); intros c0 H0;
+        try (injection H0 as <-; lia); apply (Hca now); auto; lia.
+    - split; [lia|apply Hno].
+    - split; [destruct st; cbn [file_time_after]; lia|apply Hno].
+    - split; [lia|apply Hno].
+    - split; [destruct st; cbn [file_time_after]; lia|apply Hca; lia].
+    - split; [lia|apply Hca; lia].
+    - split; [lia|apply Hca; lia].
+    - split; [lia|apply Hca; lia].
+    - split; [destruct (client_decide host (ideal_load st)); lia|apply Hno].
+  Qed.
+
+  Lemma newer_visible ops : forall now ts, ts_bound now ts -> foreign_newer now ops = true ->
+    foreign_visible ts ops = true.
+  Proof.
+    induction ops as [|o r IH]; intros now ts Hb Hfn; [reflexivity|].
     cbn [foreign_newer] in Hfn. apply andb_true_iff in Hfn. destruct Hfn as [Hfo Hfr].
-    destruct (sim_step p now st fs l o Hne Hsim Ho Hfo) as (fs' & l' & Hst & Hs').
-    cbn [Session.run Session.ideal_run]. rewrite Hst.
-    destruct (ideal_step st o) as [st' ob]. cbn [fst snd] in *. f_equal. now apply (IH (next_now now o)).
+    cbn [Session.foreign_visible]. rewrite (IH (next_now now o) (tstep ts o) (bound_step now ts o Hb) Hfr).
+    rewrite andb_true_r. destruct Hb as [_ Hc]. unfold foreign_ok in Hfo.
+    destruct o; cbn [visible_ok]; try reflexivity; cbn [foreign_op op_time] in Hfo; apply N.ltb_lt in Hfo;
+      destruct (ts_cached_at ts) as [c|]; try reflexivity; specialize (Hc c eq_refl);
+      apply negb_true_iff, N.eqb_neq; lia.
   Qed.
 
   (* start: directory exists, file does not, new loader *)
-  Lemma sim_start p now fs : dirs fs (go_dir p) = DDir -> files fs p = None -> sim p now IAbsent fs (fresh p).
+  Lemma sim_start p mt ca fs : dirs fs (go_dir p) = DDir -> files fs p = None ->
+    sim p IAbsent mt ca fs (fresh p).
   Proof.
     intros Hd Hf. apply sim_intro; auto using inv_fresh. intros content t H. rewrite Hf in H. discriminate.
   Qed.
 
+  Definition ts0 : tstate := mkT IAbsent 0 None.
+
+  Theorem history_refines_exact p fs ops : p <> [] -> dirs fs (go_dir p) = DDir -> files fs p = None ->
+    forallb proper ops = true -> foreign_visible ts0 ops = true ->
+    run fs (fresh p) ops = ideal_run IAbsent ops.
+  Proof. intros. apply (run_refines_exact p ops ts0); auto. now apply sim_start. Qed.
+
   Theorem history_refines p fs ops : p <> [] -> dirs fs (go_dir p) = DDir -> files fs p = None ->
     forallb proper ops = true -> foreign_newer 0 ops = true ->
     run fs (fresh p) ops = ideal_run IAbsent ops.
-  Proof. intros. apply run_refines with (p := p) (now := 0); auto using sim_start. Qed.
+  Proof.
+    intros. apply history_refines_exact; auto. apply (newer_visible ops 0); auto.
+    split; cbn; [lia|discriminate].
+  Qed.
 
   (* start anywhere: whatever the file holds and whatever the loader has cached, from the
      first Store on the history behaves like the reference store *)
+  Theorem history_refines_any_start_exact fs l s t ops :
+    l_path l <> [] -> dirs fs (go_dir (l_path l)) = DDir -> session_ok s = true ->
+    forallb proper ops = true ->
+    foreign_visible (mkT (IFile s (length (render s))) t None) ops = true ->
+    run fs l (OStore s t :: ops) = ideal_run IAbsent (OStore s t :: ops).
+  Proof.
+    intros Hne Hd Hs Hpr Hfn. cbn [Session.run Session.ideal_run Session.step Session.ideal_step].
+    destruct (store_ok (l_path l) None fs l s t eq_refl Hd Hs) as (l' & Hst & Hs').
+    rewrite Hst. f_equal.
+    now apply (run_refines_exact (l_path l) ops (mkT (IFile s (length (render s))) t None)).
+  Qed.
+
   Theorem history_refines_any_start fs l s t ops :
     l_path l <> [] -> dirs fs (go_dir (l_path l)) = DDir -> session_ok s = true ->
     forallb proper ops = true -> foreign_newer t ops = true ->
     run fs l (OStore s t :: ops) = ideal_run IAbsent (OStore s t :: ops).
   Proof.
-    intros Hne Hd Hs Hpr Hfn. cbn [Session.run Session.ideal_run Session.step Session.ideal_step].
-    destruct (store_ok (l_path l) 0 fs l s t eq_refl Hd Hs) as (l' & Hst & Hs').
-    rewrite Hst. f_equal. rewrite N.max_r in Hs' by lia.
-    now apply run_refines with (p := l_path l) (now := t).
+    intros. apply history_refines_any_start_exact; auto. apply (newer_visible ops t); auto.
+    split; cbn; [lia|discriminate].
   Qed.
 
-  (* histories without foreign writers need no condition on the times *)
+  (* histories without another writer need no condition on the times *)
   Definition own_op (o : op) : bool := negb (foreign_op o).
+
+  Lemma own_visible ops : forallb own_op ops = true -> forall ts, foreign_visible ts ops = true.
+  Proof.
+    induction ops as [|o r IH]; intros H ts; [reflexivity|].
+    cbn [forallb] in H. apply andb_true_iff in H. destruct H as [Ho Hr].
+    cbn [Session.foreign_visible]. rewrite IH by exact Hr. unfold own_op in Ho.
+    destruct o; cbn in Ho; try discriminate; reflexivity.
+  Qed.
 
   Lemma own_foreign_newer ops : forallb own_op ops = true -> forall now, foreign_newer now ops = true.
   Proof.
@@ -528,12 +621,13 @@ Section Store.
   Proof.
     induction ops as [|o r IH]; intros st Hw Hs; [reflexivity|].
     cbn [forallb] in Hs. apply andb_true_iff in Hs. destruct Hs as [Ho Hr].
-    destruct o as [s t| | |k t|c t|k t|s t|host|host t]; cbn [simple_op] in Ho; try discriminate;
+    destruct o as [s t| | |k t|c t|k t|s t| |host|host t]; cbn [simple_op] in Ho; try discriminate;
       cbn [Session.ideal_run Session.ideal_step last_store_run].
     - f_equal. now apply (IH (IFile s (length (render s)))).
     - f_equal; [|now apply IH]. f_equal.
       destruct st as [|s n]; [reflexivity|]. cbn [whole] in Hw. subst n.
       now rewrite ideal_load_full.
+    - f_equal. now apply IH.
     - f_equal. now apply IH.
   Qed.
 
@@ -624,19 +718,19 @@ Section Store.
   Lemma proper_loads n rest : forallb proper (repeat OLoad n ++ rest) = forallb proper rest.
   Proof. induction n as [|n IH]; [reflexivity|]. cbn [repeat app forallb proper]. exact IH. Qed.
 
-  Lemma foreign_newer_loads now n rest : foreign_newer now (repeat OLoad n ++ rest) = foreign_newer now rest.
-  Proof. induction n as [|n IH]; [reflexivity|]. cbn [repeat app foreign_newer]. exact IH. Qed.
+  Lemma own_loads n rest : forallb own_op (repeat OLoad n ++ rest) = forallb own_op rest.
+  Proof. induction n as [|n IH]; [reflexivity|]. cbn [repeat app forallb]. exact IH. Qed.
 
-  (* A long-lived loader has cached a good session; ANOTHER writer leaves a torn file on a later
-     tick: every Load of the surviving loader, and after a restart every Load of a new one, is
-     an error. From any starting state. *)
+  (* A long-lived loader has cached a good session; ANOTHER writer leaves a torn file carrying a
+     DIFFERENT time (later or earlier): every Load of the surviving loader, and after a restart
+     every Load of a new one, is an error. From any starting state. *)
   Theorem tear_history fs l s t k t' n m : l_path l <> [] -> dirs fs (go_dir (l_path l)) = DDir ->
-    session_ok s = true -> (k < length (render s))%nat -> t < t' ->
+    session_ok s = true -> (k < length (render s))%nat -> t' <> t ->
     run fs l ([OStore s t; OLoad; OTear k t'] ++ repeat OLoad n ++ OFresh :: repeat OLoad m)
     = [ObsStore (Ok tt); ObsLoad (LOk s); ObsNone] ++ repeat (ObsLoad LErr) n ++ ObsNone :: repeat (ObsLoad LErr) m.
   Proof.
     intros Hne Hd Hs Hk Hlt. cbn [app].
-    rewrite history_refines_any_start; auto.
+    rewrite history_refines_any_start_exact; auto.
     - cbn [Session.ideal_run Session.ideal_step]. rewrite ideal_load_full.
       rewrite ideal_run_loads. cbn [Session.ideal_run Session.ideal_step].
       replace (repeat OLoad m) with (repeat OLoad m ++ []) by apply app_nil_r.
@@ -648,32 +742,36 @@ Section Store.
     - cbn [forallb proper]. rewrite proper_loads. cbn [forallb proper].
       replace (repeat OLoad m) with (repeat OLoad m ++ []) by apply app_nil_r.
       now rewrite proper_loads.
-    - cbn [foreign_newer]. unfold foreign_ok, next_now. cbn [foreign_op op_time andb].
-      rewrite foreign_newer_loads. cbn [foreign_newer]. unfold foreign_ok, next_now. cbn [foreign_op op_time andb].
-      replace (repeat OLoad m) with (repeat OLoad m ++ []) by apply app_nil_r.
-      rewrite foreign_newer_loads. cbn [foreign_newer]. rewrite andb_true_r. apply N.ltb_lt. exact Hlt.
+    - cbn [Session.foreign_visible visible_ok Session.tstep ts_st ts_mtime ts_cached_at andb].
+      rewrite ideal_load_full. cbn [ts_cached_at].
+      apply andb_true_iff. split; [now apply negb_true_iff, N.eqb_neq|].
+      apply own_visible. rewrite own_loads. cbn [forallb own_op foreign_op negb andb].
+      replace (repeat OLoad m) with (repeat OLoad m ++ []) by apply app_nil_r. now rewrite own_loads.
   Qed.
 
-  (* Another loader stores a complete session on a later tick: the surviving loader returns it. *)
-  Theorem foreign_newer_wins fs l a b t t' n : l_path l <> [] -> dirs fs (go_dir (l_path l)) = DDir ->
-    session_ok a = true -> session_ok b = true -> t < t' ->
+  (* Another loader stores a complete session carrying a DIFFERENT time (later or earlier - a file
+     restored from a backup, cp -p, os.Chtimes): the surviving loader returns it. *)
+  Theorem foreign_differs_wins fs l a b t t' n : l_path l <> [] -> dirs fs (go_dir (l_path l)) = DDir ->
+    session_ok a = true -> session_ok b = true -> t' <> t ->
     run fs l ([OStore a t; OLoad; OForeign b t'] ++ repeat OLoad n)
     = [ObsStore (Ok tt); ObsLoad (LOk a); ObsNone] ++ repeat (ObsLoad (LOk b)) n.
   Proof.
     intros Hne Hd Ha Hb Hlt. cbn [app].
-    rewrite history_refines_any_start; auto.
+    rewrite history_refines_any_start_exact; auto.
     - cbn [Session.ideal_run Session.ideal_step]. rewrite ideal_load_full.
       replace (repeat OLoad n) with (repeat OLoad n ++ []) by apply app_nil_r.
       rewrite ideal_run_loads. cbn [Session.ideal_run]. now rewrite app_nil_r, ideal_load_full.
     - cbn [forallb proper]. rewrite Hb. cbn [andb].
       replace (repeat OLoad n) with (repeat OLoad n ++ []) by apply app_nil_r. now rewrite proper_loads.
-    - cbn [foreign_newer]. unfold foreign_ok, next_now. cbn [foreign_op op_time andb].
-      replace (repeat OLoad n) with (repeat OLoad n ++ []) by apply app_nil_r.
-      rewrite foreign_newer_loads. cbn [foreign_newer]. rewrite andb_true_r. apply N.ltb_lt. exact Hlt.
+    - cbn [Session.foreign_visible visible_ok Session.tstep ts_st ts_mtime ts_cached_at andb].
+      rewrite ideal_load_full. cbn [ts_cached_at].
+      apply andb_true_iff. split; [now apply negb_true_iff, N.eqb_neq|].
+      apply own_visible. replace (repeat OLoad n) with (repeat OLoad n ++ []) by apply app_nil_r.
+      now rewrite own_loads.
   Qed.
 
   (* What the modification-time keyed cache cannot see (exact behaviour of the code): a change by
-     ANOTHER writer that lands on the very tick the surviving loader cached at. The surviving loader
+     ANOTHER writer that carries the very time the surviving loader cached at. The surviving loader
      keeps answering with the session it read before - the last one it stored and read back itself -
      until the file's time changes or the loader stores; a new loader sees the file as it is. *)
   Theorem foreign_equal_tick_unseen fs l a b t k : l_path l <> [] -> dirs fs (go_dir (l_path l)) = DDir ->
@@ -689,7 +787,7 @@ Section Store.
     set (l1 := mkLoader p (l_last l) None).
     set (l2 := mkLoader p t (Some a)).
     assert (Hst : store fs l a t = (Ok tt, fs1, l1)).
-    { unfold Session.store. fold p; try fold p. now rewrite Hd. }
+    { unfold Session.store. fold p. now rewrite Hd. }
     assert (Hl1 : load fs1 l1 = (LOk a, l2)).
     { apply (load_eq_miss fs1 l1 (render a) t a); [apply files_set_same|reflexivity|now apply parse_render]. }
     split.
@@ -719,10 +817,13 @@ Section Store.
     fst (new_mtproto fs p host) = client_decide host (ideal_load st).
   Proof.
     intros Hne Hd Hf. rewrite client_path_nonempty by exact Hne. cbn [fst].
-    unfold Session.load. cbn [l_path fresh l_cached].
-    pose proof (load_direct_ideal p st fs Hd Hf) as H. unfold load_direct in H.
-    destruct (files fs p) as [[content mt]|]; [|now rewrite <- H].
-    rewrite <- H. destruct (parse content); reflexivity.
+    assert (Hm : exists mt, mtime_is fs p mt).
+    { destruct (files fs p) as [[c t]|] eqn:E.
+      - exists t. intros content t' H. rewrite E in H. now injection H as _ <-.
+      - exists 0. intros content t' H. rewrite E in H. discriminate. }
+    destruct Hm as [mt Hm].
+    assert (Hsim : sim p st mt None fs (fresh p)) by (apply sim_intro; auto using inv_fresh).
+    destruct (sim_load p st mt None fs (fresh p) Hsim) as [H1 _]. now rewrite H1.
   Qed.
 
   Theorem resume_after_store fs l s t host : l_path l <> [] -> dirs fs (go_dir (l_path l)) = DDir ->
@@ -731,6 +832,35 @@ Section Store.
   Proof.
     intros Hne Hd Hs. rewrite history_refines_any_start by auto.
     cbn [Session.ideal_run Session.ideal_step]. now rewrite ideal_load_full.
+  Qed.
+
+  (* ---------------- host names that are not valid UTF-8 ---------------- *)
+
+  (* encoding/json as it is: strings are coerced on the way out (every byte at which no valid
+     UTF-8 sequence starts becomes U+FFFD) *)
+  Hypothesis json_go_rt : forall t, unmarshal (marshal t) = Ok (coerce_tsf t).
+
+  Lemma parse_render_any_host s : session_bytes_ok s = true -> parse (render s) = Ok (coerce_session s).
+  Proof.
+    intros H. unfold session_bytes_ok in H. rewrite !andb_true_iff in H. destruct H as ((Hk & Hh) & Hz).
+    unfold Session.parse, Session.render. rewrite json_go_rt. cbn [obind].
+    unfold coerce_tsf, Session.write_session, Session.read_session. cbn [t_key t_hash t_salt t_host].
+    rewrite !coerce_valid_id by apply b64_utf8.
+    rewrite !b64_rt by (auto using salt_enc_bytes_ok). cbn [obind].
+    rewrite salt_roundtrip by exact Hz. reflexivity.
+  Qed.
+
+  (* store then load by the same loader, any host-name bytes: the session comes back with the
+     host name coerced - silently, no error *)
+  Theorem store_load_any_host fs l s t : dirs fs (go_dir (l_path l)) = DDir ->
+    session_bytes_ok s = true ->
+    run fs l [OStore s t; OLoad] = [ObsStore (Ok tt); ObsLoad (LOk (coerce_session s))].
+  Proof.
+    intros Hd Hs. cbn [Session.run Session.step]. unfold Session.store. rewrite Hd.
+    cbn [Session.run Session.step].
+    rewrite (load_eq_miss _ _ (render s) t (coerce_session s)); [reflexivity| |reflexivity|].
+    - cbn [l_path]. apply files_set_same.
+    - now apply parse_render_any_host.
   Qed.
 End Store.
 
@@ -796,3 +926,45 @@ Proof. split; [exact b64_roundtrip|exact b64_encode_utf8]. Qed.
 
 Lemma toy_json_ok : json_ok toy_marshal toy_unmarshal.
 Proof. split; [intros t _; apply toy_rt|intros t k _; apply toy_prefix]. Qed.
+
+(* ------------------------------------------------------------------------------------ *)
+(* encoding/json as it is (strings coerced to valid UTF-8 on the way out)                 *)
+
+Definition json_go_ok (marshal : tsf -> bytes) (unmarshal : bytes -> outcome tsf) : Prop :=
+  (forall t, unmarshal (marshal t) = Ok (coerce_tsf t)) /\
+  (forall t k, (k < length (marshal t))%nat -> unmarshal (firstn k (marshal t)) = Err).
+
+Lemma coerce_tsf_valid t : tsf_valid t = true -> coerce_tsf t = t.
+Proof.
+  destruct t as [k h s o]. unfold tsf_valid, coerce_tsf. cbn [t_key t_hash t_salt t_host].
+  rewrite !andb_true_iff. intros (((Hk & Hh) & Hs) & Ho). now rewrite !coerce_valid_id.
+Qed.
+
+(* json_ok is json_go_ok restricted to valid UTF-8 strings *)
+Lemma json_go_ok_json_ok marshal unmarshal : json_go_ok marshal unmarshal -> json_ok marshal unmarshal.
+Proof.
+  intros [H1 H2]. split.
+  - intros t Hv. now rewrite H1, coerce_tsf_valid.
+  - intros t k _. apply H2.
+Qed.
+
+Definition toy_go_marshal (t : tsf) : bytes := toy_marshal (coerce_tsf t).
+
+Lemma toy_go_json_ok : json_go_ok toy_go_marshal toy_unmarshal.
+Proof. split; [intros t; apply toy_rt|intros t k; apply toy_prefix]. Qed.
+
+(* "t\xffme:443" *)
+Definition bad_host_session : session := mkSession [1] [2] 3 [116; 255; 109; 101; 58; 52; 52; 51].
+
+Theorem hostname_not_utf8_refuted b64enc b64dec marshal unmarshal :
+  base64_ok b64enc b64dec -> json_go_ok marshal unmarshal ->
+  forall fs l t, dirs fs (go_dir (l_path l)) = DDir ->
+  exists s s', session_bytes_ok s = true /\
+    run b64enc b64dec marshal unmarshal fs l [OStore s t; OLoad] = [ObsStore (Ok tt); ObsLoad (LOk s')] /\
+    s' <> s.
+Proof.
+  intros [H1 H2] [H3 _] fs l t Hd.
+  exists bad_host_session, (coerce_session bad_host_session). split; [reflexivity|]. split.
+  - now apply store_load_any_host.
+  - vm_compute. discriminate.
+Qed.
